@@ -39,7 +39,7 @@ DRV_NAME = {"h5": "h5py.File", "ih5": "IH5Record", "mf": "IH5MFRecord"}
 
 # keys from the documented IH5 alphabet: printable ASCII without '@' and '/'; "." alone is
 # read by HDF5 as "this group"; names starting with "metador_" are reserved (C08)
-KEY_POOL = ["a", "b", "c", "d", "!", "~", "a.b", "..", "x-1", "Z9", "#", "%s", "k=v", "[0]", "(", ")",
+KEY_POOL = ["a", "b", "c", "d", "!", "~", "a.b", "x-1", "Z9", "#", "%s", "k=v", "[0]", "(", ")",
             "\"q\"", "'", "\\", "*", "?", "|", "{}", "+", "^", "`", "$", "&", ";", "<>", ",", "a_b",
             "0", "-", "=", ":", "~~", "!a", "meta", "xmetador_y"]
 VALUES = ["i:0", "i:1", "i:7", "i:42", "i:-3", "v:00", "v:7f00", "v:417f", "v:deadbeef", "e:"]
